@@ -59,6 +59,7 @@ type DeadlineListener interface {
 
 // Serve is a blocking method that serves clients
 func (s *Server) Serve(ctx context.Context, listener DeadlineListener) error {
+	defer vhook("serve.ret", s)
 	defer func() {
 		s.Infof(ctx, "Stopping server listener for %v...", listener.Addr().String())
 		err := listener.Close()
@@ -100,6 +101,7 @@ func (s *Server) Serve(ctx context.Context, listener DeadlineListener) error {
 				continue
 			}
 			s.Add(1)
+			vhook("serve.add", s, conn)
 			go s.serve(ctx, conn)
 		}
 	}
@@ -107,6 +109,7 @@ func (s *Server) Serve(ctx context.Context, listener DeadlineListener) error {
 
 func (s *Server) serve(ctx context.Context, conn net.Conn) {
 	defer s.Done()
+	defer vhook("conn.done", s, conn)
 	timer := prometheus.NewTimer(prometheus.ObserverFunc(func(v float64) {
 		ms := v * 1000 // make milliseconds
 		connectionDuration.Observe(ms)
@@ -134,6 +137,7 @@ func (s *Server) handle(ctx context.Context, c *crypter, h Handler) {
 	// scoped to the entire undelrying net.Conn.  this is needed for single-connect
 	sessionProvider := newSessionProvider()
 	defer sessionProvider.close()
+	vhook("h.start", c.Conn, sessionProvider)
 	for {
 		select {
 		case <-ctx.Done():
@@ -144,6 +148,7 @@ func (s *Server) handle(ctx context.Context, c *crypter, h Handler) {
 				s.Errorf(ctx, "unable to set read deadline on connection %v", c.RemoteAddr())
 			}
 			packet, err := c.read()
+			vhook("h.read", c.Conn, err)
 			if err != nil {
 				if err != io.EOF {
 					s.Errorf(ctx, "closing connection, unable to read, %v", err)
@@ -173,8 +178,10 @@ func (s *Server) handle(ctx context.Context, c *crypter, h Handler) {
 				sessionProvider.set(req.Header, nil)
 			}
 			handlers.Inc()
+			vhook("h.pre", c.Conn)
 			state.Handle(resp, req)
 			handlers.Dec()
+			vhook("h.post", c.Conn, resp.next != nil, int(resp.header.SeqNo))
 			if resp.next == nil {
 				s.Debugf(ctx, "[%v] sessionID is complete", req.Header.SessionID)
 				sessionProvider.delete(req.Header.SessionID)
